@@ -190,7 +190,8 @@ PROPS = {
                 + _trace_viol(res, "glr", "c12")),
     "C13": dict(stages=["tables", "lr", "glr"],
                 viol=lambda res: _trace_viol(res, "lr", "c13") + _trace_viol(res, "glr", "c13")),
-    "C14": dict(stages=["tables", "lr"], viol=lambda res: _trace_viol(res, "lr", "c14")),
+    "C14": dict(stages=["tables", "lr", "glr"],
+                viol=lambda res: _trace_viol(res, "lr", "c14") + _trace_viol(res, "glr", "c14")),
     "C15": dict(stages=["tables", "lr", "mci_lr", "glr", "ast"],
                 viol=lambda res: _trace_viol(res, "lr", "c15") + _mci_viol(res, "mci_lr", "C15") + _replay_viol(res, "c15")
                 + _trace_viol(res, "glr", "c15") + _gen_c15(res)),
